@@ -58,6 +58,9 @@ SERVER_INFO = {
     "ended-at-limit": (3, 3, 1, None),      # (no fresh stream: opening one is over the limit, a second violation)
     # MAX_HEADER_LIST_SIZE changed twice in a row (100, then back to 65536); the peer has acknowledged the first change only
     "mhls-100-acked-65536-pending": (0, None, None, 1),
+    # stream 1 open, then the application closed the connection (GOAWAY with last-stream-id 1 is out): whatever still arrives is
+    # an error on a closed connection, and a later GOAWAY never names a higher stream than the first one did (RFC 7540 6.8)
+    "closed-by-us": (1, 1, None, 3),
 }
 CLIENT_INFO = {
     "fresh": (0, None, None, None), "handshaken": (0, None, None, None),
@@ -75,6 +78,8 @@ CLIENT_INFO = {
     # request 1 was reset BY THE SERVER, the client has opened request 3 since (stream 1 is gone from the table)
     "reset-by-peer-forgotten": (0, None, None, None),
     "output-partly-read-then-cleared": (0, 1, None, None),
+    # request 1 answered with a promise (2), then the application closed the connection
+    "closed-by-us": (2, 1, None, None),
 }
 
 
@@ -129,6 +134,17 @@ def _build_extra(client, name, cfg):
         h.conn.ping(b"12345678")
         assert len(h.conn.data_to_send(5)) == 5
         h.conn.clear_outbound_data_buffer()
+        return h.conn
+    if name == "closed-by-us":
+        h = H.Solo(client, **dict(cfg))
+        if client:
+            ops = (h.api("send_headers", 1, H.ni(H.REQ_POST)), h.rx([wire.headers(1, sb(H.RESP))]), h.rx([wire.push_promise(1, 2, sb(H.REQ))]))
+        else:
+            ops = (h.rx([wire.headers(1, sb(H.REQ_POST))]),)
+        for o in ops:
+            assert o.kind == "ok", o.brief()
+        h.conn.close_connection()
+        h.conn.data_to_send()
         return h.conn
     if name == "ended-at-limit":
         h = H.Solo(False, **dict(cfg))
@@ -349,6 +365,10 @@ MUST_BE_CONNECTION_ERROR = {"oversize-data-right-after-lowering-ack", "iws-overf
 
 
 def judge(o, client, state, name, codes, hi, opening_sids, viols, outcomes, family, case):
+    if state.startswith("closed"):
+        codes = None            # every frame is an error here, whatever it would have been on a live connection
+        opening_sids = []       # and opens nothing: the last-stream-id stays what the first GOAWAY said
+
     def bad(kind, msg, **sig):
         s = {"kind": kind, "template": name if family == "catalogue" else "struct"}
         s.update(sig)
